@@ -171,6 +171,9 @@ def check_ledger(ctx, entries, errors, options, case, li, rng=None):
         first_use_workload(ctx, conn2, rng, case)
         check_tables(ctx, conn2, entries, dict(case, phase='read on a new connection whose first scans of the tables were left incomplete'), (li, 'first-use'))
         ctx.count('obs.ledgers_read_after_incomplete_first_scans')
+    if rng is not None and li % 4 == 0:
+        # re-attachment: a ledger that fails to load outright (errors, no directive), one without directives, another ledger
+        reattach_sequence(ctx, conn, entries, errors, options, case, li, rng)
     if rng is not None:
         # history: the same connection after a series of reading statements presents the same tables
         before = ctx.counters['violations_raw']
@@ -215,6 +218,53 @@ def first_use_workload(ctx, conn, rng, case):
             except (beanquery.Error, ValueError, TypeError, AttributeError) as exc:
                 ctx.count(f'obs.first_use.{kind}')
                 ctx.seen('first_use_errors', f'{kind}: {type(exc).__name__}')
+
+
+def reattach_sequence(ctx, conn, entries, errors, options, case, li, rng):
+    """attach() replaces what the connection presents, whatever the outcome of loading: after a ledger that fails to load
+    (a malformed or missing file: errors and no directive) every table is empty; after the next good one they present it."""
+    import os
+    import tempfile
+    from beancount import loader
+    fd, path = tempfile.mkstemp(suffix='.beancount', prefix='bqv-c11-')
+    os.close(fd)
+    try:
+        steps = rng.sample(['malformed', 'missing', 'empty', 'other'], rng.randint(2, 4)) + ['original']
+        for step in steps:
+            if step == 'malformed':
+                with open(path, 'w') as f:
+                    f.write('2020-01-01 opne Assets:Cash\n  this is not a directive\n')
+                dsn = 'beancount:' + path
+            elif step == 'missing':
+                dsn = 'beancount:' + path + '.does-not-exist'
+            elif step == 'empty':
+                with open(path, 'w') as f:
+                    f.write('; nothing here\n')
+                dsn = 'beancount:' + path
+            elif step == 'other':
+                other = ledgers.gen_ledger(rng, ntxn=rng.randint(1, 5))
+                with open(path, 'w') as f:
+                    f.write(other.text)
+                dsn = 'beancount:' + path
+            else:
+                dsn = None
+            try:
+                if dsn is None:
+                    conn.attach('beancount:', entries=entries, errors=errors, options=options)
+                    exp = entries
+                else:
+                    conn.attach(dsn)
+                    exp = loader.load_file(dsn[len('beancount:'):])[0]
+            except Exception as exc:  # noqa: BLE001
+                ctx.violation('c11.attach_raised', f'attach ({step}): {type(exc).__name__}: {exc}', case)
+                return
+            ctx.count(f'obs.reattach.{step}')
+            before = ctx.counters['violations_raw']
+            check_tables(ctx, conn, exp, dict(case, phase=f'after re-attaching: {steps[:steps.index(step) + 1]}'), (li, 'attach', step))
+            if ctx.counters['violations_raw'] != before:
+                return
+    finally:
+        os.unlink(path)
 
 
 def check_tables(ctx, conn, entries, case, li):
@@ -359,6 +409,8 @@ def finalize(merged):
             reasons.append(f'no row of table {t} compared')
     if c.get('obs.ledgers_read_after_incomplete_first_scans', 0) == 0 or c.get('obs.first_use.self-subquery', 0) == 0:
         reasons.append('no ledger read after incomplete first scans')
+    if c.get('obs.reattach.malformed', 0) == 0 or c.get('obs.reattach.missing', 0) == 0:
+        reasons.append('no re-attachment of a ledger that fails to load')
     if c.get('obs.ledgers_reread_after_reads', 0) == 0 or c.get('obs.read_statements', 0) == 0:
         reasons.append('no ledger was re-read after a series of reading statements')
     nonnull = merged['sets'].get('columns_nonnull', set())
